@@ -50,6 +50,12 @@ theorem ite_some {α : Type} {c : Bool} {x y : α} (h : (if c = true then some x
   | true => simpa using h
   | false => simp at h
 
+theorem ite_none_some' {α : Type} {c : Bool} {x y : α} (h : (if c = true then none else some x) = some y) :
+    c = false ∧ x = y := by
+  cases c with
+  | true => simp at h
+  | false => simpa using h
+
 theorem asm_step (m : C05St) (a a' : C05aSt) (l l' : C05lSt) (g g' : C05gSt) (o : Obs) (h : AsmRel m a l g)
     (ha : monC05a.step a o = some a') (hl : monC05l.step l o = some l') (hg : monC05g.step g o = some g') :
     ∃ m', monC05.step m o = some m' ∧ AsmRel m' a' l' g' := by
@@ -282,5 +288,246 @@ theorem asm_run (tr : List Obs) (m : C05St) (a : C05aSt) (l : C05lSt) (g : C05gS
 theorem monC05_of_clauses (tr : List Obs) (ha : monC05a.accepts tr = true) (hl : monC05l.accepts tr = true)
     (hg : monC05g.accepts tr = true) : monC05.accepts tr = true :=
   asm_run tr {} {} {} {} asmRel_init ha hl hg
+
+/-! ## monitor C14h is the conjunction of its clause monitors -/
+
+/-- the register steps never fail -/
+theorem monReg_some (sp : RegSpec) (reg : Reg) (o : Obs) : ∃ r, (monReg sp).step reg o = some r := by
+  cases o with
+  | inv a op =>
+    simp only [monReg]
+    cases sp.isW op with
+    | none => exact ⟨_, rfl⟩
+    | some v => exact ⟨_, rfl⟩
+  | _ => exact ⟨_, rfl⟩
+
+theorem find_map_fst (l : List (Nat × Nat × Nat × Nat)) (k : Nat) :
+    (l.map (fun q => (q.1, q.2.1))).find? (·.1 == k) = (l.find? (·.1 == k)).map (fun q => (q.1, q.2.1)) := by
+  induction l with
+  | nil => rfl
+  | cons q l ih =>
+    simp only [List.map_cons, List.find?_cons]
+    cases h : (q.1 == k) <;> simp [h, ih]
+
+/-- the replaced-record clause of C14h is the function part of the lineage clause of C05 -/
+theorem c14hf_step (l l' : C05lSt) (h : C14hfSt) (o : Obs) (hf : h.fnR = l.fnR)
+    (hi : h.fns = l.info.map (fun q => (q.1, q.2.1))) (hl : monC05l.step l o = some l') :
+    ∃ h', monC14hf.step h o = some h' ∧ h'.fnR = l'.fnR ∧ h'.fns = l'.info.map (fun q => (q.1, q.2.1)) := by
+  obtain ⟨rc, hrc⟩ := monReg_some ctxSpec l.ctxR o
+  obtain ⟨rf, hrf⟩ := monReg_some fnSpec l.fnR o
+  obtain ⟨rv, hrv⟩ := monReg_some svSpec l.svR o
+  simp only [monC05l, hrc, hrf, hrv] at hl
+  obtain ⟨hok, hl'⟩ := ite_some hl
+  subst hl'
+  refine ⟨{ fns := (match o with
+                    | .cbin k f _ _ => (k, f) :: h.fns
+                    | _ => h.fns), fnR := rf }, ?_, rfl, ?_⟩
+  · rw [← hf] at hrf
+    cases o with
+    | probeCtx k b =>
+      cases b with
+      | true => simp only [monC14hf, hrf]; rfl
+      | false =>
+        dsimp only at hok
+        simp only [lookupInfo] at hok
+        simp only [monC14hf, hrf]
+        rw [hi, find_map_fst]
+        cases hfind : l.info.find? (·.1 == k) with
+        | none => rfl
+        | some q =>
+          obtain ⟨k0, f, arg, root⟩ := q
+          simp only [hfind, Option.map_some, Bool.and_eq_true] at hok
+          simp only [Option.map_some, hf, hok.1.2, if_true]
+    | cfg c => simp only [monC14hf, hrf]; rfl
+    | inv a op => simp only [monC14hf, hrf]; rfl
+    | ret a r => simp only [monC14hf, hrf]; rfl
+    | cbin k f arg root => simp only [monC14hf, hrf]; rfl
+    | cbout k e => simp only [monC14hf, hrf]; rfl
+    | envCancel c => simp only [monC14hf, hrf]; rfl
+    | envCancelW a => simp only [monC14hf, hrf]; rfl
+    | envErr a e => simp only [monC14hf, hrf]; rfl
+    | bo r => simp only [monC14hf, hrf]; rfl
+    | exitcb j e => simp only [monC14hf, hrf]; rfl
+    | probeW a b => simp only [monC14hf, hrf]; rfl
+    | quiesce p r l0 => simp only [monC14hf, hrf]; rfl
+  · cases o <;> simp [hi]
+
+theorem c14hf_run (tr : List Obs) (l : C05lSt) (h : C14hfSt) (hf : h.fnR = l.fnR)
+    (hi : h.fns = l.info.map (fun q => (q.1, q.2.1))) (hl : (monC05l.run l tr).isSome = true) :
+    (monC14hf.run h tr).isSome = true := by
+  induction tr generalizing l h with
+  | nil => rfl
+  | cons o os ih =>
+    simp only [ObsMonitor.run] at hl ⊢
+    cases h1 : monC05l.step l o with
+    | none => simp [h1] at hl
+    | some l' =>
+      obtain ⟨h', hm, hf', hi'⟩ := c14hf_step l l' h o hf hi h1
+      rw [h1] at hl
+      simp only [Option.bind_some] at hl
+      rw [hm]; simp only [Option.bind_some]
+      exact ih l' h' hf' hi' hl
+
+theorem monC14hf_of_C05l (tr : List Obs) (hl : monC05l.accepts tr = true) : monC14hf.accepts tr = true :=
+  c14hf_run tr {} {} rfl rfl hl
+
+structure AsmRelH (m : C14hSt) (b : C14hbSt) (f : C14hfSt) : Prop where
+  run : m.running = b.running
+  pm : m.pendMut = b.pendMut
+  cr : m.croots = b.croots
+  rt : m.roots = b.roots
+  sl : m.seenLive = b.seenLive
+  mv : m.moved = b.moved
+  ex : m.expectRun = b.expectRun
+  fns : m.fns = f.fns
+  fnR : m.fnR = f.fnR
+
+theorem asmH_step (m : C14hSt) (b b' : C14hbSt) (f f' : C14hfSt) (o : Obs) (h : AsmRelH m b f)
+    (hb : monC14hb.step b o = some b') (hf : monC14hf.step f o = some f') :
+    ∃ m', monC14h.step m o = some m' ∧ AsmRelH m' b' f' := by
+  obtain ⟨h1, h2, h3, h4, h5, h6, h7, h8, h9⟩ := h
+  obtain ⟨rf, hrf⟩ := monReg_some fnSpec f.fnR o
+  simp only [monC14hf, hrf] at hf
+  obtain ⟨hok, hf'⟩ := ite_some hf
+  subst hf'
+  cases o with
+  | cbin k fn arg root =>
+    simp only [monC14hb, Option.some.injEq] at hb; subst hb
+    simp only [monReg, Option.some.injEq] at hrf; subst hrf
+    exact ⟨_, rfl, ⟨by simp [h1, h2], h2, h3, by simp [h4], h5, h6, rfl, by simp [h8], h9⟩⟩
+  | cbout k e =>
+    simp only [monC14hb, Option.some.injEq] at hb; subst hb
+    simp only [monReg, Option.some.injEq] at hrf; subst hrf
+    exact ⟨_, rfl, ⟨by simp [h1], h2, h3, h4, h5, h6, h7, h8, h9⟩⟩
+  | envCancel c =>
+    simp only [monC14hb, Option.some.injEq] at hb; subst hb
+    simp only [monReg, Option.some.injEq] at hrf; subst hrf
+    exact ⟨_, rfl, ⟨h1, h2, by simp [h3], h4, h5, rfl, rfl, h8, h9⟩⟩
+  | probeCtx k c =>
+    simp only [monReg, Option.some.injEq] at hrf; subst hrf
+    cases c with
+    | false =>
+      simp only [monC14hb, Option.some.injEq] at hb; subst hb
+      dsimp only at hok
+      rw [← h8, ← h9] at hok
+      simp only [monC14h]
+      cases hfind : m.fns.find? (·.1 == k) with
+      | none => exact ⟨_, rfl, ⟨h1, h2, h3, h4, by simp [h5], h6, h7, h8, h9⟩⟩
+      | some p =>
+        simp only [hfind] at hok
+        simp only [hok, if_true]
+        exact ⟨_, rfl, ⟨h1, h2, h3, h4, by simp [h5], h6, h7, h8, h9⟩⟩
+    | true =>
+      simp only [monC14hb] at hb
+      obtain ⟨hh, hb'⟩ := ite_none_some' hb
+      subst hb'
+      refine ⟨{ m with running := m.running.map fun p => if p.1 == k then (p.1, true) else p }, ?_,
+        ⟨by simp [h1], h2, h3, h4, h5, h6, h7, h8, h9⟩⟩
+      simp only [monC14h, h1, h5, h4, h3]
+      rw [hh]; rfl
+  | inv a op =>
+    simp only [monC14hb] at hb
+    cases hq : op.quiet with
+    | true =>
+      simp only [hq, if_true, Option.some.injEq] at hb; subst hb
+      have : rf = f.fnR := by
+        cases op <;> simp [Op.quiet] at hq <;> simp [monReg, fnSpec] at hrf <;> exact hrf.symm
+      subst this
+      exact ⟨m, by simp [monC14h, hq], ⟨h1, h2, h3, h4, h5, h6, h7, h8, h9⟩⟩
+    | false =>
+      simp only [hq, Bool.false_eq_true, if_false, Option.some.injEq] at hb; subst hb
+      cases op with
+      | setRoutine fn =>
+        simp only [monReg, fnSpec, Option.some.injEq] at hrf; subst hrf
+        refine ⟨{ m with running := m.running.map (fun p => (p.1, true)), pendMut := a :: m.pendMut, expectRun := false, moved := movedOf m.running m.croots m.seenLive m.pendMut a (.setRoutine fn), fnR := m.fnR.inv (a + 1) fn }, ?_, ?_⟩
+        · simp only [monC14h, hq, Bool.false_eq_true, if_false]
+        · exact ⟨by simp [h1], by simp [h2], h3, h4, h5, by simp [h1, h3, h5, h2], rfl, h8, by simp [h9]⟩
+      | setStateRoutine fn =>
+        simp only [monReg, fnSpec, Option.some.injEq] at hrf; subst hrf
+        refine ⟨{ m with running := m.running.map (fun p => (p.1, true)), pendMut := a :: m.pendMut, expectRun := false, moved := movedOf m.running m.croots m.seenLive m.pendMut a (.setStateRoutine fn), fnR := m.fnR.inv (a + 1) fn }, ?_, ?_⟩
+        · simp only [monC14h, hq, Bool.false_eq_true, if_false]
+        · exact ⟨by simp [h1], by simp [h2], h3, h4, h5, by simp [h1, h3, h5, h2], rfl, h8, by simp [h9]⟩
+      | setContext c r =>
+        simp only [monReg, fnSpec, Option.some.injEq] at hrf; subst hrf
+        refine ⟨{ m with running := m.running.map (fun p => (p.1, true)), pendMut := a :: m.pendMut, expectRun := false, moved := movedOf m.running m.croots m.seenLive m.pendMut a (.setContext c r), fnR := m.fnR }, ?_, ?_⟩
+        · simp only [monC14h, hq, Bool.false_eq_true, if_false]
+        · exact ⟨by simp [h1], by simp [h2], h3, h4, h5, by simp [h1, h3, h5, h2], rfl, h8, by simp [h9]⟩
+      | restart =>
+        simp only [monReg, fnSpec, Option.some.injEq] at hrf; subst hrf
+        refine ⟨{ m with running := m.running.map (fun p => (p.1, true)), pendMut := a :: m.pendMut, expectRun := false, moved := movedOf m.running m.croots m.seenLive m.pendMut a (.restart), fnR := m.fnR }, ?_, ?_⟩
+        · simp only [monC14h, hq, Bool.false_eq_true, if_false]
+        · exact ⟨by simp [h1], by simp [h2], h3, h4, h5, by simp [h1, h3, h5, h2], rfl, h8, by simp [h9]⟩
+      | setState v =>
+        simp only [monReg, fnSpec, Option.some.injEq] at hrf; subst hrf
+        refine ⟨{ m with running := m.running.map (fun p => (p.1, true)), pendMut := a :: m.pendMut, expectRun := false, moved := movedOf m.running m.croots m.seenLive m.pendMut a (.setState v), fnR := m.fnR }, ?_, ?_⟩
+        · simp only [monC14h, hq, Bool.false_eq_true, if_false]
+        · exact ⟨by simp [h1], by simp [h2], h3, h4, h5, by simp [h1, h3, h5, h2], rfl, h8, by simp [h9]⟩
+      | swap kk =>
+        simp only [monReg, fnSpec, Option.some.injEq] at hrf; subst hrf
+        refine ⟨{ m with running := m.running.map (fun p => (p.1, true)), pendMut := a :: m.pendMut, expectRun := false, moved := movedOf m.running m.croots m.seenLive m.pendMut a (.swap kk), fnR := m.fnR }, ?_, ?_⟩
+        · simp only [monC14h, hq, Bool.false_eq_true, if_false]
+        · exact ⟨by simp [h1], by simp [h2], h3, h4, h5, by simp [h1, h3, h5, h2], rfl, h8, by simp [h9]⟩
+      | getState => simp [Op.quiet] at hq
+      | waitExited bb => simp [Op.quiet] at hq
+  | ret a r =>
+    simp only [monC14hb, Option.some.injEq] at hb; subst hb
+    simp only [monReg, fnSpec, Option.some.injEq] at hrf; subst hrf
+    exact ⟨_, rfl, ⟨h1, by simp [h2], h3, h4, h5, h6, by simp [h7, h6, h1, h2], h8, by simp [h9]⟩⟩
+  | quiesce p r l =>
+    simp only [monReg, Option.some.injEq] at hrf; subst hrf
+    simp only [monC14hb] at hb
+    obtain ⟨hh, hb'⟩ := ite_none_some' hb
+    subst hb'
+    refine ⟨m, ?_, ⟨h1, h2, h3, h4, h5, h6, h7, h8, h9⟩⟩
+    simp only [monC14h, h7]
+    rw [hh]; rfl
+  | cfg c =>
+    simp only [monC14hb, Option.some.injEq] at hb; subst hb
+    simp only [monReg, Option.some.injEq] at hrf; subst hrf
+    exact ⟨m, rfl, ⟨h1, h2, h3, h4, h5, h6, h7, h8, h9⟩⟩
+  | envCancelW c =>
+    simp only [monC14hb, Option.some.injEq] at hb; subst hb
+    simp only [monReg, Option.some.injEq] at hrf; subst hrf
+    exact ⟨m, rfl, ⟨h1, h2, h3, h4, h5, h6, h7, h8, h9⟩⟩
+  | envErr c e =>
+    simp only [monC14hb, Option.some.injEq] at hb; subst hb
+    simp only [monReg, Option.some.injEq] at hrf; subst hrf
+    exact ⟨m, rfl, ⟨h1, h2, h3, h4, h5, h6, h7, h8, h9⟩⟩
+  | bo r =>
+    simp only [monC14hb, Option.some.injEq] at hb; subst hb
+    simp only [monReg, Option.some.injEq] at hrf; subst hrf
+    exact ⟨m, rfl, ⟨h1, h2, h3, h4, h5, h6, h7, h8, h9⟩⟩
+  | exitcb j e =>
+    simp only [monC14hb, Option.some.injEq] at hb; subst hb
+    simp only [monReg, Option.some.injEq] at hrf; subst hrf
+    exact ⟨m, rfl, ⟨h1, h2, h3, h4, h5, h6, h7, h8, h9⟩⟩
+  | probeW c d =>
+    simp only [monC14hb, Option.some.injEq] at hb; subst hb
+    simp only [monReg, Option.some.injEq] at hrf; subst hrf
+    exact ⟨m, rfl, ⟨h1, h2, h3, h4, h5, h6, h7, h8, h9⟩⟩
+
+theorem asmH_run (tr : List Obs) (m : C14hSt) (b : C14hbSt) (f : C14hfSt) (h : AsmRelH m b f)
+    (hb : (monC14hb.run b tr).isSome = true) (hf : (monC14hf.run f tr).isSome = true) :
+    (monC14h.run m tr).isSome = true := by
+  induction tr generalizing m b f with
+  | nil => rfl
+  | cons o os ih =>
+    simp only [ObsMonitor.run] at hb hf ⊢
+    cases h1 : monC14hb.step b o with
+    | none => simp [h1] at hb
+    | some b' =>
+      cases h2 : monC14hf.step f o with
+      | none => simp [h2] at hf
+      | some f' =>
+        obtain ⟨m', hm, hrel⟩ := asmH_step m b b' f f' o h h1 h2
+        rw [h1] at hb; rw [h2] at hf
+        simp only [Option.bind_some] at hb hf
+        rw [hm]; simp only [Option.bind_some]
+        exact ih m' b' f' hrel hb hf
+
+/-- **monitor C14h accepts whatever its clause monitors accept** -/
+theorem monC14h_of_clauses (tr : List Obs) (hb : monC14hb.accepts tr = true) (hf : monC14hf.accepts tr = true) :
+    monC14h.accepts tr = true :=
+  asmH_run tr {} {} {} ⟨rfl, rfl, rfl, rfl, rfl, rfl, rfl, rfl, rfl⟩ hb hf
 
 end UtilModel.Routine
